@@ -51,5 +51,23 @@ def handle : Handler := fun cmd j =>
       | Json.str "stop" => some POp.stop
       | _ => none
     pure (toJson (wf .main ops))
+  | "c35.consume" => do
+    -- {"expected": [texts], "pipe": [lines]} -> ["result", ok, rest] | ["interrupted", rest] | "blocked"
+    let e ← getStrs j "expected"
+    let p ← getStrs j "pipe"
+    match consumeBatch (e.map String.toList) (p.map String.toList) with
+    | .result ok rest => pure (Json.arr #[Json.str "result", toJson ok, ofStrs rest])
+    | .interrupted rest => pure (Json.arr #[Json.str "interrupted", ofStrs rest])
+    | .blocked => pure (Json.str "blocked")
+  | "c35.bashrcs" => do
+    -- {"items": [["path"|"transfer", status] | "other"]} -> ["next"|"failed"|"death"]
+    let a ← getArr j "items"
+    let items ← a.mapM fun (x : Json) => match x with
+      | Json.arr #[Json.str "path", n] => (n.getNat?.toOption).map BashrcItem.path
+      | Json.arr #[Json.str "transfer", n] => (n.getNat?.toOption).map BashrcItem.transfer
+      | Json.str "other" => some BashrcItem.other
+      | _ => none
+    pure (Json.arr ((sourceBashrcs items).map fun l => match l with
+      | .next => Json.str "next" | .failed => Json.str "failed" | .death => Json.str "death").toArray)
   | _ => none
 end Pkgcore.Driver.C35
